@@ -169,6 +169,7 @@ def correspondence(ctx):
     element_access(ctx, ctx.budget(140, 2000))
     import colllib
     colllib.run(ctx, ctx.budget(900, 12000))
+    colllib.big(ctx, ctx.budget(8, 80))
 
 
 def replay(ctx, rec):
